@@ -41,11 +41,22 @@ def exclusive_subchoices_graph():
     return g
 
 
+def incompatible_options_graph():
+    """Two permanent choices A{4,5}@2, B{6,7}@3 whose second options exclude each other: fixing one of them to its
+    second option makes the other one's second option a vector that has to be corrected WITHOUT touching the fixed one."""
+    g = empty(7)
+    g['der'] = [[1, 2], [1, 3]]
+    g['ch'] = [{'origin': 2, 'opts': [4, 5]}, {'origin': 3, 'opts': [6, 7]}]
+    g['inc'] = [[5, 7]]
+    g['feat'] = ['hist_incompatible_options']
+    return g
+
+
 def corpus(ctx):
     rng = ctx.rng('hist')
     # (a linked pair leaves the second member without a design variable: variable index /= choice index for the third)
     gs = [base_problem_graph(), two_connection_choices_graph(), gen_cons.make('linked', 2, 2, 'permanent_and_independent'),
-          exclusive_subchoices_graph()]
+          exclusive_subchoices_graph(), incompatible_options_graph()]
     want = 24 if ctx.quick else 120          # candidates; run() keeps the first ones that yield a suitable problem
     tries = 0
     while len(gs) < want and tries < 4000:
@@ -98,7 +109,7 @@ def run(ctx):
     rng = ctx.rng('hist-sample')
     items = []
     mc_summary = []
-    keep = 7 if ctx.quick else 40
+    keep = 8 if ctx.quick else 40
     for pr in preps:
         if 'skip' in pr:
             continue
